@@ -2,9 +2,15 @@ package props
 
 import (
 	"fmt"
+	"go/ast"
 	"go/token"
 	"sort"
+
+	"verif/internal/load"
 )
+
+func loadFunc(c *Ctx, recv, name string) *ast.FuncDecl { return load.FuncDecl(c.P.TLS, recv, name) }
+func recvOf(fd *ast.FuncDecl) string                    { return load.RecvName(fd) }
 
 type token_Pos = token.Pos
 
@@ -67,6 +73,22 @@ func init() {
 			}
 			fmt.Printf("%s: Read reads %v Len reads %v ; Write writes %v ; JSON writes %v\n", e.Name, keys(rr), keys(lr), keys(ww), keys(jw))
 		}
+		c.R.Ok("X", "x", "", "dump")
+	}})
+}
+
+func init() {
+	register(&Prop{ID: "XERR", Run: func(c *Ctx) {
+		root := loadFunc(c, "UConn", "buildHandshakeState")
+		reach := moduleReach(c, []*ast.FuncDecl{root})
+		n := 0
+		for fd := range reach {
+			n++
+			for _, d := range droppedErrors(c, fd) {
+				fmt.Printf("%s %s.%s: %s %s\n", c.Pos(d.call), recvOf(fd), fd.Name.Name, d.fn.FullName(), d.why)
+			}
+		}
+		fmt.Println("reachable", n)
 		c.R.Ok("X", "x", "", "dump")
 	}})
 }
